@@ -113,6 +113,8 @@ def true_wavefunction(rng, types, natom, unrestricted, single_ok=False):
         exps = sorted((round(10 ** rng.uniform(-0.5, 0.9), 7) for _ in range(nexp)), reverse=True)
         while len(set(exps)) < nexp:
             exps = sorted((round(10 ** rng.uniform(-0.5, 0.9), 7) for _ in range(nexp)), reverse=True)
+        if rng.random() < 0.5:
+            exps = exps[::-1] if rng.random() < 0.5 else rng.sample(exps, len(exps))   # diffuse-to-tight or any order: equally valid
         co = [[round(rng.uniform(0.3, 1.0), 7)] for _ in exps]
         shells.append(Shell(c, [t[0]], [t[1]], exps, co))
     ob = MolecularBasis(shells, dict(MOLDEN_ORDER), "L2")
